@@ -36,6 +36,11 @@ def parseEvents (h : String) : List WEv × List REv × List Bool :=
 def maxOpt (l : List Int) : Option Int := l.foldl (fun m x => match m with | none => some x | some y => some (max x y)) none
 
 def handle (args : List String) (impl : String) : Verdict :=
+  if impl.startsWith "D " then
+    -- the store closed under direct concurrent writes: every write returns, Close returns, the file opens again
+    let ok := impl == "D writers=returned reopen=ok"
+    { model := "D writers=returned reopen=ok", spec := some ok, note := if ok then "" else "class=write-or-close-never-returns-at-shutdown" }
+  else
   match args, impl.splitOn " ## " with
   | [_], [hS, finalS, flags] =>
     let (ws, rs, vs) := parseEvents (hS.drop 2).toString
@@ -89,11 +94,11 @@ def handle (args : List String) (impl : String) : Verdict :=
             | none, [p] => attempted.contains p.time
             | some t, [p] => p.time == t || (p.time > t && attempted.contains p.time)
             | _, _ => false))
-    let flagsOk := (flags.splitOn " stopAt=").headD "" == "stop=returned reopen=ok"
+    let flagsOk := (flags.splitOn " stopAt=").headD "" == "stop=returned reopen=ok stuck=0"
     let ok := answered && readsOk && monotone && finalOk && flagsOk
     { model := if ok then impl else "violation", spec := some ok,
       note := if ok then s!"info=writes:{ws.length},reads:{rs.length}" else if !answered then "class=request-unanswered-or-failed" else if !readsOk then "class=stale-or-phantom-read"
-        else if !monotone then "class=reads-went-back" else if !finalOk then "class=final-content-not-serial-or-hash-mismatch" else "class=stop-or-reopen-failed" }
+        else if !monotone then "class=reads-went-back" else if !finalOk then "class=final-content-not-serial-or-hash-mismatch" else "class=stop-or-reopen-failed-or-handler-left-behind" }
   | _, _ => bad "C20 parse"
 
 end Driver.C20
